@@ -51,6 +51,13 @@ func parseCall(p []byte) (reply []byte) {
 	switch c.Entry {
 	case "Parse":
 		_, err = v.Parser.Parse(hx.Namespace, in)
+	case "ParseAfterBatchCalls":
+		// the same parser first serves the resolution-side entry points for these very bytes (what a node does with a request it
+		// has seen in a batch), then intake: intake judges as if it saw the request for the first time
+		_, _ = v.Parser.GetRevealValue(in)
+		_, _ = v.Parser.GetCommitment(in)
+		_, _ = v.Parser.ParseOperation(hx.Namespace, in, true)
+		_, err = v.Parser.Parse(hx.Namespace, in)
 	case "ParseOperation":
 		_, err = v.Parser.ParseOperation(hx.Namespace, in, false)
 	case "ParseOperationBatch":
@@ -373,7 +380,7 @@ func c10Requests(r *hx.Rng, code uint64, keyType string, nonce bool, pad int) []
 }
 
 func checkC10(c *hx.Ctx) {
-	c.Rule("(A) valid requests of the four types for every key type / hash algorithm must be accepted; (B) every member of the request, of suffix data / delta, of the protected header and of the signed payload (re-signed) is removed, nulled, emptied, type-confused or swapped with another request's value: whenever Parse (and DocumentHandler.ProcessOperation for creates) accepts, an independent predicate over the raw JSON (sizes, multihash well-formedness/algorithm/length, alg/curve/nonce/patch allow-lists, reveal = hash of signing key, commitment rules) must hold; (C) each limit (request size via JSON whitespace, canonical delta size via an adjustable string, hash length 46/88 vs MaxOperationHashLength, nonce size, each alg / curve / patch action removed from its allow-list) is checked exactly at and one past its boundary, each under >= 7 configurations that move one OTHER parameter: accepted at, rejected past, decision independent of the other parameter; (E) a limit of zero admits nothing; (F) a DocumentHandler serving two protocol versions judges a create submitted for the later, stricter version by that version's rules also after having served the earlier version; (D) correctly signed requests whose JSON patch operations have null / mistyped members at every list position, arbitrary bytes and structurally damaged requests into Parse, ParseOperation (batch on/off), GetRevealValue, GetCommitment, ParseDID must return, never panic; crash-isolated workers; non-trivial = mutated or boundary input; distinct = distinct (input, configuration, entry point)")
+	c.Rule("(A) valid requests of the four types for every key type / hash algorithm must be accepted; (B) every member of the request, of suffix data / delta, of the protected header and of the signed payload (re-signed) is removed, nulled, emptied, type-confused or swapped with another request's value: whenever Parse (and DocumentHandler.ProcessOperation for creates) accepts, an independent predicate over the raw JSON (sizes, multihash well-formedness/algorithm/length, alg/curve/nonce/patch allow-lists, reveal = hash of signing key, commitment rules) must hold; (C) each limit (request size via JSON whitespace, canonical delta size via an adjustable string, hash length 46/88 vs MaxOperationHashLength, nonce size, each alg / curve / patch action removed from its allow-list) is checked exactly at and one past its boundary, each under >= 7 configurations that move one OTHER parameter: accepted at, rejected past, decision independent of the other parameter, and the same from a parser that has just served GetRevealValue / GetCommitment / batch-mode parsing for the same bytes; (E) a limit of zero admits nothing; (F) a DocumentHandler serving two protocol versions judges a create submitted for the later, stricter version by that version's rules also after having served the earlier version; (D) correctly signed requests whose JSON patch operations have null / mistyped members at every list position, arbitrary bytes and structurally damaged requests into Parse, ParseOperation (batch on/off), GetRevealValue, GetCommitment, ParseDID must return, never panic; crash-isolated workers; non-trivial = mutated or boundary input; distinct = distinct (input, configuration, entry point)")
 	pool := hx.NewPool(c, "parse", 16, 4*1024*1024, 30*time.Second)
 	defer pool.Close()
 	call := func(entry string, p protocol.Protocol, in []byte) (string, string, bool) {
@@ -421,6 +428,18 @@ func checkC10(c *hx.Ctx) {
 			c.Violation(fmt.Sprintf("C10 boundary decided on the wrong side: %s: expected accepted=%v, got %s %s", what, want, st, msg),
 				map[string]interface{}{"entry": entry, "request": string(in), "protocol": p, "what": what})
 			return false
+		}
+		if entry == "Parse" {
+			st2, msg2, ok2 := call("ParseAfterBatchCalls", p, in)
+			if !ok2 {
+				return false
+			}
+			if (st2 == "OK") != want {
+				c.Violation(fmt.Sprintf("C10 boundary decided on the wrong side by a parser that had served GetRevealValue / GetCommitment / batch-mode parsing for the same bytes before: %s: expected accepted=%v, got %s %s", what, want, st2, msg2),
+					map[string]interface{}{"entry": "ParseAfterBatchCalls", "request": string(in), "protocol": p, "what": what})
+				return false
+			}
+			c.Count("boundary_ok_after_batch_mode_calls")
 		}
 		c.Count(fmt.Sprintf("boundary_ok:%s", strings.SplitN(what, " ", 2)[0]))
 		c.Distinct(entry + "|" + what)
@@ -1094,6 +1113,7 @@ func checkC10(c *hx.Ctx) {
 		c.Floor("garbage_"+e+"_ERR", 500)
 	}
 	c.Floor("json_patch_members_null_ERR", 200)
+	c.Floor("boundary_ok_after_batch_mode_calls", 100)
 }
 
 func without(xs []string, x string) []string {
